@@ -22,7 +22,7 @@ PLANS = {
     },
     "C03": {
         "level": "other",
-        "sidecars": ["serialise", "params", "driver", "grouping", "patching", "residues"],
+        "sidecars": ["serialise", "params", "driver", "grouping", "patching", "residues", "cellproto"],
         "extras": [{"name": "c03_atom_set_table", "module": "tables.x_checks", "func": "c03_atom_sets", "python": "vt"},
                    {"name": "c07_records", "module": "bounded.c07_records", "func": "run", "python": "venv", "timeout": 3000}],
         "explanation": "Contracts decide the bookkeeping: apply_force_field partitions the model into written / unassigned, "
